@@ -40,15 +40,18 @@ def main():
     ap.add_argument("--wt", default=None)
     ap.add_argument("--skip-confirm", action="store_true")
     ap.add_argument("--release-demo", action="store_true")
+    ap.add_argument("--no-default", action="store_true", help="demo (and pinned tests) with --no-default-features")
     a = ap.parse_args()
     wt = a.wt or "/tmp/mut/%s" % a.pid
     m = a.mut.upper()
     diff = os.path.join(wt, "DELIVER", "%s.diff" % m)
-    demo = os.path.join(wt, "DELIVER", "demo_%s.rs" % m.lower())
+    demo = os.path.join(wt, "DELIVER", "demo_%s.rs" % m.lower().replace("-", "_"))
     name = a.name or "%s-%s" % (a.pid, m)
     feat = ["--features", a.features] if a.features else []
+    if a.no_default:
+        feat = ["--no-default-features"] + feat
     meta = {"id": name, "property": a.pid, "mutant": m, "features_for_demo": a.features, "ran": [], "at": time.strftime("%Y-%m-%dT%H:%M:%SZ", time.gmtime())}
-    run("git checkout -- . && rm -f tests/demo_m1.rs tests/demo_m2.rs", wt)
+    run("git checkout -- . && rm -f tests/demo_*.rs", wt)
     rc, out = run(["git", "apply", "--whitespace=nowarn", diff], wt)
     if rc != 0:
         print("patch does not apply:", out)
@@ -57,7 +60,7 @@ def main():
     tname = os.path.basename(demo)[:-3]
     try:
         if not a.skip_confirm:
-            rc, out = run(["cargo", "test", "--offline"] + feat + ["--lib", "--test", "cc", "--test", "auto_collect"], wt)
+            rc, out = run(["cargo", "test", "--offline"] + ([] if a.no_default else feat) + ["--lib", "--test", "cc", "--test", "auto_collect"], wt)
             res = re.findall(r"test result: (\w+)\. (\d+) passed; (\d+) failed", out)
             meta["pinned_tests_with_mutant"] = res
             ok_pinned = rc == 0 and all(r[0] == "ok" for r in res) and len(res) >= 3
